@@ -24,8 +24,13 @@ package actor
 //@ lemma backoff-monotone bv: forall n int64, i time.Duration, m time.Duration :: n >= 1 && n < 9223372036854775807 && i > 0 && i <= m ==> spec_backoff(n, i, m) <= spec_backoff(n+1, i, m)
 //@ lemma backoff-capped bv: forall n int64, i time.Duration, m time.Duration :: n >= 1 && i > 0 && i <= m ==> spec_backoff(n, i, m) <= m && spec_backoff(n, i, m) >= i
 
+// (the reset window is measured from the previous fault: every fault is stamped)
+//@ ghost local rf_now int64
 //@ func (*PID).recordFault(pid, window)
 //@   arith bv
+//@   also C07
+//@   at call 1 of (Time).UnixNano ghost rf_now = result
+//@   ensures every-fault-is-stamped: pid.lastFaultAtNano.v == rf_now
 //@   ensures restarts-from-one: window > 0 && old(pid.lastFaultAtNano.v) > 0 && pid.lastFaultAtNano.v - old(pid.lastFaultAtNano.v) > int64(window) ==> result == 1
 //@   ensures otherwise-increments: !(window > 0 && old(pid.lastFaultAtNano.v) > 0 && pid.lastFaultAtNano.v - old(pid.lastFaultAtNano.v) > int64(window)) ==> result == old(pid.consecutiveFaults.v) + 1
 //@   ensures counter-is-result: pid.consecutiveFaults.v == result
